@@ -78,6 +78,18 @@ CHECKS = {
                      "file, and the valid C16 programs, through the reader in Release and Debug+ASan+UBSan: only 'accepted' or "
                      "'std::exception within the time limit' are allowed.",
                 note="Solver-level and network-level runs under the sanitizers are added as E3 is built; leaks on rejected input are not judged."),
+    "C01": dict(engine="progrun", category="exploration", design_ref="DESIGN.md §4 C01",
+                technique="bounded exhaustive enumeration of RIDDLE programs (all statement subsets of a pool) solved by the real solver in several build configurations; exact re-evaluation of every statement on the reported solution",
+                text="Every subset of <=3 statements from a pool of relations, boolean combinations and disjunction statements over two reals and "
+                     "a boolean is solved in 2 (thorough 8) configurations of heuristic x inconsistency checking x build type; each reported "
+                     "solution is re-evaluated with exact rational+eps arithmetic and three-valued logic.",
+                note="Rule bodies, timelines and objects are covered by the families of C03-C06/C17 as they are registered. Open known findings: constraints whose atoms no flaw decides (negated ==, ^)."),
+    "C02": dict(engine="progrun", category="exploration", design_ref="DESIGN.md §4 C02",
+                technique="bounded exhaustive program enumeration with an independent complete decision procedure (truth-assignment enumeration x Fourier-Motzkin) and verdict agreement within syntactic equivalence classes",
+                text="For every constraint-network program the verdict 'unsolvable/inconsistent' is compared with a complete reference "
+                     "procedure; for base programs all permutations, a renaming and tautology insertions must get the same verdict; in 2 (8) "
+                     "configurations. No-good soundness at network level is decided by C07/C09/C10.",
+                note="Two-variable linear fragment; timeouts are undecided."),
 }
 
 PENDING_REASON = "check not built yet in this round (planned, see DESIGN.md §4); not claimed until its quick and thorough tiers have run to completion on the unchanged tree"
@@ -134,6 +146,8 @@ ENGINES = [
      "kind_free_text": "exhaustive root-level construction histories on sat_core, truth-table oracle"},
     {"name": "relmc", "path": "harness/relmc.cpp", "serves_properties": ["C11", "C12"],
      "kind_free_text": "exhaustive relation-request enumeration judged on a model grid with pinned variables (real lra/idl/rdl theories)"},
+    {"name": "progrun", "path": "harness/progrun.cpp + lib/riddle.py + lib/fam_*.py", "serves_properties": ["C01", "C02", "C16"],
+     "kind_free_text": "program-level exhaustive enumeration: Python generators with exact reference semantics, real solver run per program in forked children, validators on the official JSON solution"},
     {"name": "lexmc", "path": "harness/lexmc.cpp", "serves_properties": ["C16", "C18"],
      "kind_free_text": "exhaustive text enumeration through the RIDDLE lexer/parser (reference lexer, AST capture via virtual factories, crash/hang isolation)"},
     {"name": "netmc", "path": "harness/netmc.cpp", "serves_properties": ["C07", "C08", "C09", "C10", "C14"],
